@@ -37,6 +37,8 @@ TRUSTED = [
     "CPython float(str) is modelled as exact decimal -> nearest binary64 (Common/WBin64.v), int(str) as digit value with the 4300-digit limit",
     "the oracles in this file (field-wise round trip, hash round trip through Molecule.to_string / to_file / from_file / from_data, layout rewrites, exception classes)",
     "order-independence oracle (harness/props/text_history.py): the same texts under every dtype and dtype=None in sequence against the reversed sequence in a fresh interpreter",
+    "files oracle (harness/props/text_history.py run_files): hand-written table of the library's known file extensions; reading a text file = from_data on its characters (dtype given, else known extension, else detection); Molecule -> file -> Molecule hash; each write+read step against the same steps in reverse order in a fresh interpreter",
+    "hash equality is judged up to the hash's own rounding (8 decimals): all other hashed fields identical and no coordinate moved by more than 1e-8 + 2*10^-prec Bohr (c07.hash_difference)",
 ]
 ASSUMPTIONS = [
     "ASCII text only (str.strip / \\s / \\w / IGNORECASE on non-ASCII characters are outside the model and never generated)",
@@ -264,11 +266,11 @@ def fits(fmt, molrec):
         int(molrec["molecular_multiplicity"]) == (1 if int(sum(molrec["elez"])) % 2 == 0 else 2)
 
 
-def gen_valid(rng, fmt):
+def gen_valid(rng, fmt, far=False):
     """(arrays, molrec) such that to_string(fmt) is re-readable with dtype fmt."""
     for _ in range(200):
         arrays, molrec = c08.gen_molrec(rng, max_frag=4 if fmt == "psi4" else 1, labels=(fmt != "xyz"),
-                                        allow_ghost=(fmt != "xyz"), extras=False)
+                                        allow_ghost=(fmt != "xyz"), extras=False, far=far)
         if fmt == "psi4":
             if rng.random() < 0.4:
                 arrays["fix_com"] = True
@@ -494,8 +496,23 @@ def roundtrip_fields(molrec, fmt, units, prec, text, final):
     return None
 
 
-def hash_roundtrip(arrays, fmt, via_file, scratch):
-    """Molecule -> string or file -> Molecule keeps the hash (for molecules the format can carry)."""
+def hash_difference(mol, mol2, prec=12):
+    """None when mol2 is mol as far as the hash can tell.  The hash rounds coordinates to 8 decimals, so a coordinate that sits
+    within the printing error of a rounding boundary (x.xxxxxxxx5) may legitimately land on the other side after a trip through
+    text: when every other hashed field is identical and no coordinate moved by more than one unit of the 8th decimal plus the
+    printing error (1e-8 + 2*10^-prec Bohr) the molecules are the same molecule; anything else is a difference."""
+    if mol.get_hash() == mol2.get_hash():
+        return None
+    diffs = [f for f in mol.hash_fields if json.dumps(canon(getattr(mol, f)), default=str) != json.dumps(canon(getattr(mol2, f)), default=str)]
+    g1, g2 = np.asarray(mol.geometry, dtype=float), np.asarray(mol2.geometry, dtype=float)
+    if set(diffs) <= {"geometry"} and g1.shape == g2.shape and float(np.max(np.abs(g1 - g2))) <= 1.0e-8 + 2.0 * 10.0 ** (-prec):
+        return None
+    return f"fields differing: {diffs}"
+
+
+def hash_roundtrip(arrays, fmt, via_file, scratch, units=None, prec=None):
+    """Molecule -> string or file -> Molecule keeps the hash (for molecules the format can carry); through a string also with
+    units= / prec= given to Molecule.to_string."""
     from qcelemental.models import Molecule
     from qcelemental.molparse import to_schema
     molrec = c08.build_molrec(arrays)
@@ -512,7 +529,12 @@ def hash_roundtrip(arrays, fmt, via_file, scratch):
                 text = fh.read()
             mol2 = Molecule.from_file(path, dtype=fmt if fmt == "xyz+" else None)
         else:
-            text = mol.to_string(fmt)
+            opts = {}
+            if units is not None:
+                opts["units"] = units
+            if prec is not None:
+                opts["prec"] = prec
+            text = mol.to_string(fmt, **opts)
             mol2 = Molecule.from_data(text, dtype=fmt)
             # format auto-detection (dtype=None) on a valid text must give the molecule the explicit dtype gives
             mol3 = Molecule.from_data(text)
@@ -520,9 +542,9 @@ def hash_roundtrip(arrays, fmt, via_file, scratch):
                 return f"auto-detection reads a valid {fmt} text as a different molecule than dtype={fmt}", text
     except Exception as e:
         return f"Molecule -> {fmt} {'file' if via_file else 'string'} -> Molecule raised {type(e).__name__}: {str(e)[:160]}", None
-    if mol.get_hash() != mol2.get_hash():
-        diffs = [f for f in mol.hash_fields if json.dumps(canon(getattr(mol, f)), default=str) != json.dumps(canon(getattr(mol2, f)), default=str)]
-        return f"hash changed through {fmt} {'file' if via_file else 'string'} (fields differing: {diffs})", text
+    diff = hash_difference(mol, mol2, prec if (prec is not None and not via_file) else 12)
+    if diff:
+        return f"hash changed through {fmt} {'file' if via_file else 'string'} ({diff})", text
     return None, text
 
 
@@ -602,12 +624,63 @@ def run_family(spec, scratch):
 
 
 # ------------------------------------------------------------------------------------------------
+# files: Molecule.to_file / from_file under file names whose extension is NOT in the library's table (format given by dtype on
+# writing, by dtype or by detection on reading), under known extensions, with and without dtype, several formats sharing one
+# extension, one after the other in one process; judged by history-free oracles and against a fresh interpreter (reverse order)
+
+UNKNOWN_EXTS = [".mol", ".dat", ".inp", ".txt", ".out", ".XYZ", ".geom", ".in", ".molecule", ".log", ".PSI4", ".com", ".zmat", ".crd"]
+KNOWN_EXTS = [".xyz", ".psi4", ".psimol", ".json"]
+
+
+def files_spec(rng, exts):
+    """exts: the 2 unknown extensions this spec owns (no other spec of the run uses them, so a replay of this spec alone sees the
+    same history for them)."""
+    mols = []
+    for _ in range(rng.choice([2, 3])):
+        arrays, _m = gen_valid(rng, rng.choice(FORMATS))
+        arrays = dict(arrays)
+        arrays.pop("input_units_to_au", None)
+        mols.append(arrays)
+    steps = []
+    n = rng.choice([6, 8, 10])
+    shared = exts[0]
+    fmts = FORMATS[:]
+    rng.shuffle(fmts)
+    for k in range(n):
+        r = rng.random()
+        if k < 3:
+            ext, wd = shared, fmts[k]                       # three formats under ONE unknown extension, in a random order
+        elif r < 0.45:
+            ext, wd = rng.choice(exts + [""]), rng.choice(FORMATS + ["json"])
+        elif r < 0.6:
+            ext, wd = rng.choice(exts + [""]), None         # no dtype, unknown extension: to_file must refuse
+        elif r < 0.8:
+            ext, wd = rng.choice(KNOWN_EXTS), None
+        else:
+            ext, wd = rng.choice(KNOWN_EXTS), rng.choice(FORMATS)   # explicit dtype overrides a known extension
+        reads = [None] + ([wd] if wd else []) + ([rng.choice(FORMATS)] if rng.random() < 0.3 else [])
+        if rng.random() < 0.3:
+            reads = reads[::-1]
+        steps.append({"who": rng.randrange(len(mols)), "name": f"s{k}{ext}", "wdtype": wd, "reads": reads})
+    head, tail = steps[:3], steps[3:]
+    if rng.random() < 0.5:
+        rng.shuffle(tail)
+        at = sorted(rng.sample(range(len(tail) + 1), 3))      # the three shared-extension writes spread over the sequence
+        for j, h in zip(at[::-1], head[::-1]):
+            tail.insert(j, h)
+        steps = tail
+    return {"mols": mols, "steps": steps}
+
+
+def files_scratch():
+    return os.path.join(coqrun.VERIF, "build", "scratch_c07_files")
+
 
 def correspond(ctx):
     corr = Corr()
     corr.rule = ("(lex) recognisers vs re on seeded/mutated/random tokens and lines; (valid) validated molecules x {xyz, xyz+, psi4} x "
                  "{Bohr, Angstrom} x precision 8-14 written by the implementation and parsed by both; (layout) six kinds of rewrites of "
-                 "those texts; (family) 2-4 molecules equal in every hashed field but different in frame flags / user labels, written one after the other through Molecule.to_string / to_file and each read back; (cross) a valid text of one format read as the other two; (mutation/soup) byte-level mutations of valid texts and token soups under each dtype; a case is "
+                 "those texts; (family) 2-4 molecules equal in every hashed field but different in frame flags / user labels, written one after the other through Molecule.to_string / to_file and each read back; (cross) a valid text of one format read as the other two; (files) 6-10 to_file/from_file steps over 2-3 molecules under unknown/known extensions with and without dtype; (mutation/soup) byte-level mutations of valid texts and token soups under each dtype; a case is "
                  "non-trivial when the implementation got as far as handing a dictionary to from_input_arrays; distinct = distinct (dtype, text)")
     rng = ctx.rng
     scratch = os.path.join(coqrun.VERIF, "build", "scratch_c07_files")
@@ -634,7 +707,7 @@ def correspond(ctx):
     valid_texts = []
     for k in range(nvalid):
         fmt = FORMATS[k % 3]
-        arrays, molrec = gen_valid(rng, fmt)
+        arrays, molrec = gen_valid(rng, fmt, far=True)
         units = "Angstrom" if fmt == "xyz" else rng.choice(["Bohr", "Angstrom"])
         prec = rng.choice([8, 9, 10, 11, 12, 13, 14])
         text = write(molrec, fmt, units, prec)
@@ -744,12 +817,38 @@ def correspond(ctx):
         arrays = dict(arrays)
         arrays.pop("input_units_to_au", None)
         via_file = (k // 3) % 2 == 1
-        bad, text = hash_roundtrip(arrays, fmt, via_file, scratch)
+        # through a string: half of the cases with units= / prec= given to Molecule.to_string (strict xyz has no unit marker)
+        units = prec = None
+        if not via_file and (k // 6) % 2 == 1:
+            units = rng.choice(["Bohr", "Angstrom", "bohr", "ANGSTROM"]) if fmt != "xyz" else rng.choice([None, "Angstrom"])
+            prec = rng.choice([8, 9, 10, 11, 13, 14, 16])
+        bad, text = hash_roundtrip(arrays, fmt, via_file, scratch, units, prec)
         if bad is None and text is None:
             continue
         corr.count("hash-file" if via_file else "hash-string")
+        if units is not None or prec is not None:
+            corr.hit("hash-string:units/prec given")
         if bad:
-            corr.failures.append({"stream": "hash", "case": {"arrays": arrays, "fmt": fmt, "via_file": via_file}, "what": bad, "observed": text})
+            corr.failures.append({"stream": "hash", "case": {"arrays": arrays, "fmt": fmt, "via_file": via_file, "units": units, "prec": prec},
+                                  "what": bad, "observed": text})
+
+    # ---- files: to_file / from_file under unknown and known extensions, with and without dtype, one after the other
+    exts = UNKNOWN_EXTS[:]
+    rng.shuffle(exts)
+    for k in range(16 if ctx.thorough else 4):
+        own = exts[2 * k:2 * k + 2] if 2 * k + 2 <= len(exts) else [f".u{k:02d}a", f".u{k:02d}b"]
+        spec = files_spec(rng, own)
+        try:
+            bad = text_history.check_files(spec, scratch)
+        except Exception as e:
+            corr.errors.append(f"files stream: {e!r}")
+            continue
+        corr.count("files", sum(len(st["reads"]) + 1 for st in spec["steps"]))
+        for st in spec["steps"]:
+            ext = os.path.splitext(st["name"])[1]
+            corr.hit(f"files:write:{'known' if ext in text_history.BUILTIN_EXT else 'unknown'}-ext:{st['wdtype']}")
+        if bad:
+            corr.failures.append({"stream": "files", "case": dict(bad[2], step=bad[0]), "what": bad[1], "observed": None})
 
     # ---- history: valid texts under every dtype and under auto-detection, one after the other, in this process (after all
     #      of the above) and in a fresh interpreter in reverse order: every call must answer the same
@@ -818,6 +917,10 @@ def replay(ctx, rp):
         texts, bad = run_family(case, scratch)
         return {"input": {"variants": case["variants"], "steps": case["steps"]}, "implementation": bad[2] if bad else None,
                 "oracle": bad[1] if bad else None, "fails": bool(bad)}
+    if stream == "files" or ("mols" in case and "steps" in case):
+        spec = {"mols": case["mols"], "steps": case["steps"]}
+        bad = text_history.check_files(spec, files_scratch())
+        return {"input": spec, "implementation": None, "oracle": bad[1] if bad else None, "fails": bool(bad)}
     if stream == "history":
         bad = text_history.check_from_string(case["calls"])
         return {"input": {"calls": len(case["calls"]), "index": case.get("index")}, "implementation": list(bad[1:]) if bad else None,
@@ -826,13 +929,24 @@ def replay(ctx, rp):
     if stream == "hash":
         scratch = os.path.join(coqrun.VERIF, "build", "scratch_c07_files")
         os.makedirs(scratch, exist_ok=True)
-        bad, text = hash_roundtrip(case["arrays"], case["fmt"], case["via_file"], scratch)
+        bad, text = hash_roundtrip(case["arrays"], case["fmt"], case["via_file"], scratch, case.get("units"), case.get("prec"))
         return {"input": case, "implementation": text, "oracle": bad, "fails": bool(bad)}
+    if "arrays" in case and "units" in case and "prec" in case:
+        # a round-trip case: its INPUT is the molecule + format + unit + precision.  The text is written again by the
+        # implementation under test (the recorded text is what the failing tree wrote: information only) and read back.
+        molrec = c08.build_molrec(case["arrays"])
+        try:
+            text = write(molrec, case["dtype"], case["units"], case["prec"])
+        except Exception as e:
+            return {"input": {k: v for k, v in case.items() if k != "text"}, "implementation": ["Err", type(e).__name__],
+                    "oracle": f"to_string({case['dtype']}) raised {type(e).__name__}: {str(e)[:160]}", "fails": True}
+        ob = observe(text, case["dtype"])
+        bad = totality_failure(ob["final"]) or roundtrip_fields(molrec, case["dtype"], case["units"], case["prec"], text, ob["final"])
+        return {"input": {k: v for k, v in case.items() if k != "text"}, "text_written_now": text, "text_recorded": case.get("text"),
+                "implementation": [ob["final"][0], str(ob["final"][1])[:500]], "oracle": bad, "fails": bool(bad)}
+    # pure-parser cases: the input IS a text (mutations, soups, corpus, layout rewrites and their originals, auto-detection)
     ob = observe(case["text"], case["dtype"])
     bad = totality_failure(ob["final"])
-    if not bad and "arrays" in case:
-        molrec = c08.build_molrec(case["arrays"])
-        bad = roundtrip_fields(molrec, case["dtype"], case["units"], case["prec"], case["text"], ob["final"])
     if not bad and "original" in case:
         ref = observe(case["original"], case["dtype"])
         if ref["final"][0] == "Ok" and not (ob["final"][0] == "Ok" and canon(ob["final"][1]) == canon(ref["final"][1])):
@@ -897,7 +1011,10 @@ LEVEL_TEXT = (
     "function); oracles on the implementation: field-wise round trip, Molecule -> string/file -> Molecule hash equality, layout "
     "invariance, exception classes, order independence (the same texts under every dtype in sequence vs a fresh interpreter in reverse order), "
     "and families of 2-4 molecules equal in every hashed field but different in frame flags / user labels written one after the other "
-    "through Molecule.to_string / to_file, each read back and compared with its own source.")
+    "through Molecule.to_string / to_file, each read back and compared with its own source; and sequences of Molecule.to_file / from_file "
+    "steps under file names with unknown extensions (several formats sharing one extension, explicit dtype), known extensions, with and "
+    "without dtype, judged by history-free oracles (file = its characters; hash round trip; to_file without a format refuses) and against "
+    "the reversed sequence in a fresh interpreter; Molecule.to_string with units= / prec= given in the hash stream.")
 LEVEL_NOTE = (
     "Clause map: round trip -> roundtrip_psi4(_auto)/xyzplus/xyz (characters); unchanged hash -> oracle only (validation after parsing "
     "is C04/C05/C06, hash C11); layout -> comments/outer whitespace for all dtypes, blank lines and line padding for psi4 and for "
